@@ -2011,7 +2011,6 @@ def run(chk):
         "roundtrip_h5: the time array is reproduced only for uniformly sampled series (start + i*delta)"]
     chk.matchers[F19] = f19_shape
     chk.matchers[F30] = f30_shape
-    chk.matchers[FXOK] = fxok_shape
     rng = chk.rng
     drv = core.Driver()
     root = tempfile.mkdtemp(prefix="qv07c_")
